@@ -379,6 +379,15 @@ fn prop(t: &mut Tape, st: &mut Stats) -> Result<(), Failure> {
                             flag(c, x, false, t, st);
                         }
                     }
+                    (Node::Table(x), Item::Value(toml_edit::Value::InlineTable(c))) if x.kind == TblKind::Inline => {
+                        // an inline table that is a direct entry of a standard table, written through dotted keys
+                        let plain = !x.entries.is_empty() && x.entries.iter().all(|(_, v)| !matches!(v, Node::Aot(_)) && !matches!(v, Node::Table(y) if y.kind != TblKind::Inline));
+                        if plain && t.chance(1, 2) {
+                            c.set_dotted(true);
+                            x.kind = TblKind::Dotted;
+                            st.class("flag.dotted-inline");
+                        }
+                    }
                     (Node::Aot(a), Item::ArrayOfTables(ca)) => {
                         for (x, c) in a.iter_mut().zip(ca.iter_mut()) {
                             flag(c, x, true, t, st);
